@@ -90,9 +90,9 @@ def _load_helper_obasis(lit: LineIterator) -> MolecularBasis:
         words = line.split()
         angmom = angmom_sti(words[1])
         nbasis_shell = int(words[0])
-        if nbasis_shell == len(CONVENTIONS[(angmom, "c")]):
+        if nbasis_shell == len(CONVENTIONS.get((angmom, "c"), [])):
             kind = "c"
-        elif nbasis_shell == len(CONVENTIONS[(angmom, "p")]):
+        elif nbasis_shell == len(CONVENTIONS.get((angmom, "p"), [])):
             kind = "p"
         else:
             raise LoadError(
